@@ -96,6 +96,7 @@ public:
 
     QByteArray encode(const QByteArray &key = QByteArray(), bool addFingerprint = true) const;
     bool decode(const QByteArray &buffer, const QByteArray &key = QByteArray(), QStringList *errors = nullptr);
+    bool hasMessageIntegrity() const;
     QString toString() const;
     static quint16 peekType(const QByteArray &buffer, quint32 &cookie, QByteArray &id);
 
